@@ -175,8 +175,40 @@ def coq_group(i, inst, res):
     return (defs, terms), keys
 
 
+def precondition_probe():
+    """The inputs the library refuses by assertion (orthotopes.setup_aux_vars,
+    first call of cover.minimize and cover_enum.minimize): f = FALSE,
+    care = FALSE, f = care = TRUE.  The model has no counterpart of these
+    guards, so C09_total / C10_total speak about the code only inside this
+    precondition.  Observed on every run and recorded in the evidence (what
+    the code does on them is not part of the property)."""
+    import omega.symbolic.fol as _fol
+    import omega.symbolic.cover as cov
+    import omega.symbolic.cover_enum as cov_enum
+    out = {}
+    for fname, f_s, c_s in (('f_false', 'FALSE', 'x < 2'),
+                            ('care_false', 'x < 2', 'FALSE'),
+                            ('f_and_care_true', 'TRUE', 'TRUE')):
+        for mod, m in (('cover', cov), ('cover_enum', cov_enum)):
+            fol = _fol.Context()
+            fol.declare(x=(0, 3), y=(0, 3))
+            f, care = fol.add_expr(f_s), fol.add_expr(c_s)
+            try:
+                m.minimize(f, care, fol)
+                out[f'{mod}:{fname}'] = 'returned'
+            except AssertionError:
+                out[f'{mod}:{fname}'] = 'refused (AssertionError)'
+            except Exception as e:
+                out[f'{mod}:{fname}'] = f'raised {type(e).__name__}'
+    return out
+
+
 def correspond(ctx):
     jobs = gen_instances(ctx)
+    try:
+        ctx.extra['library_precondition'] = precondition_probe()
+    except Exception as e:
+        ctx.extra['library_precondition'] = dict(error=repr(e))
     ctx.log(f'{len(jobs)} instances; running the implementation')
     results = run_all(jobs)
     ctx.log('implementation done; evaluating in Coq')
